@@ -168,9 +168,22 @@ def _case(arg):
         try:
             with np.errstate(all="ignore"):
                 new = tf.transform_1d_grid(rule)
+        except ZeroDivisionError as exc:
+            # documented clean refusal of the generic inverse-derivative formulas when a node sits
+            # where the wrapped map has zero slope (singular node of the inverse map)
+            nodes = _oracle_nodes(name, {k: v for k, v in p.items() if v is not None}, inv, x)
+            if inv and any(not np.isfinite(r1) or abs(r1) > 1e12 for _, r1 in nodes):
+                res.inadm()
+                return res.as_dict()
+            res.violation(f"{tag}:raised:ZeroDivisionError", f"{tag}({p}).transform_1d_grid({rule_name}({n})): {exc}", case)
+            return res.as_dict()
         except ValueError as exc:
             if expect_reject:
                 res.nontrivial()
+                return res.as_dict()
+            if name == "HyperbolicRTransform" and (np.max(x) >= 1.0 / p["b"] or p["b"] * (len(x) - 1) >= 1.0):
+                # nodes beyond the pole 1/b (or the documented b*(N-1) < 1 rule): not admissible
+                res.inadm()
                 return res.as_dict()
             res.violation(f"{tag}:rejected-admissible-grid",
                           f"{tag}({p}).transform_1d_grid({rule_name}({n})) raised ValueError: {exc}", case)
@@ -195,18 +208,20 @@ def _case(arg):
     if np_pts.shape != x.shape or np_w.shape != w.shape:
         res.violation(f"{tag}:shape", "transformed grid has a different number of nodes", case)
         return res.as_dict()
+    fin_r1 = [abs(r1) for _, r1 in nodes if np.isfinite(r1)]
+    jac_scale = max(fin_r1 + [1e-3] + [abs(r0) for r0, _ in nodes if np.isfinite(r0)])
     signed_match = 0
     abs_match = 0
     regular = 0
     decreasing = None
     for i, (r0, r1) in enumerate(nodes):
         res.count()
-        if not (np.isfinite(r0) and np.isfinite(r1)) or abs(r0) > 1e15:
+        if not (np.isfinite(r0) and np.isfinite(r1)):
             # singular node: only the +-inf convention of the point is required
             res.inadm()
             want = 1e16 if trim else np.inf
-            if np.isinf(r0) or abs(r0) > 1e15 or np.isnan(r0):
-                if not (abs(np_pts[i]) == want or (not trim and np.isinf(np_pts[i])) or np.isnan(r0)):
+            if np.isinf(r0):
+                if not (abs(np_pts[i]) == want or (not trim and np.isinf(np_pts[i]))):
                     res.violation(f"{tag}:singular-node-convention",
                                   f"node x={x[i]} maps to {np_pts[i]}, expected +-{want}", case)
             continue
@@ -216,9 +231,10 @@ def _case(arg):
             res.violation(f"{tag}:points-not-mapped-nodes",
                           f"{tag}: node x={x[i]:.6g} of {rule_name}({n}) became {np_pts[i]:.12g}, the map gives {r0:.12g}", case)
         ew = w[i] * abs(r1)
-        if abs(np_w[i] - ew) <= RTOL * abs(ew) + 1e-300:
+        atol = 1e-13 * abs(w[i]) * jac_scale + 1e-300  # r'(x_i) may vanish (e.g. Handy m=2 at x=-1)
+        if abs(np_w[i] - ew) <= RTOL * abs(ew) + atol:
             abs_match += 1
-        if abs(np_w[i] - w[i] * r1) <= RTOL * abs(ew) + 1e-300:
+        if abs(np_w[i] - w[i] * r1) <= RTOL * abs(ew) + atol:
             signed_match += 1
     if regular:
         res.nontrivial()
@@ -245,7 +261,7 @@ def _case(arg):
         (r0, _), = _oracle_nodes(name, pq, inv, [e]) if np.isfinite(e) else [(_limit_at_inf(name, pq, inv), 0.0)]
         if np.isnan(r0):
             imgs.append(None)
-        elif np.isinf(r0) or abs(r0) > 1e15:
+        elif np.isinf(r0):
             imgs.append(np.sign(r0) * (1e16 if trim else np.inf))
         else:
             imgs.append(r0)
@@ -253,7 +269,11 @@ def _case(arg):
         want = tuple(sorted(imgs))
         ok = dom is not None and len(dom) == 2 and all(
             (a == b) or (np.isfinite(b) and abs(a - b) <= 1e-9 * (1 + abs(b))) for a, b in zip(dom, want))
-        if not ok:
+        if not ok and dom is not None and any(isinstance(v, float) and v != v for v in map(float, dom)):
+            res.violation(f"{tag}:domain:nan-image-of-infinity",
+                          f"{tag}: new domain {tuple(map(float, dom))} contains nan: the image of +inf under the "
+                          f"closed-form inverse is (inf-c)/(inf+c); the ordered image of {rule.domain} is {want}", case)
+        elif not ok:
             res.violation(f"{tag}:domain-not-ordered-image",
                           f"{tag}: new domain {dom}, ordered image of {rule.domain} is {want}", case)
         fin = np_pts[np.isfinite(np_pts)]
